@@ -8,11 +8,16 @@ def retained_bond_indices(s, tol):
     """
     Indices of retained singular values based on given tolerance.
     """
-    w = np.linalg.norm(s)
-    if w == 0:
+    smax = np.max(np.abs(s), initial=0)
+    if smax == 0:
         return np.array([], dtype=int)
 
+    # rescale by a power of two (exact in floating-point arithmetic), such that
+    # the squares below can neither underflow nor overflow for very small or large values
+    s = np.ldexp(np.asarray(s, dtype=float), -int(np.frexp(smax)[1]))
+
     # normalized squares
+    w = np.linalg.norm(s)
     s = (s / w)**2
 
     # accumulate values from smallest to largest
